@@ -66,6 +66,10 @@ def gateways_for(transport, backend="thread", gid="g"):
         return ["popen//python=/sim/bare-python3 -S -E//id=m", f"popen//via=m//id={gid}{em}"], 1
     if transport == "socket-bare":
         return ["popen//python=/sim/bare-python3 -S -E//id=m", f"socket//installvia=m//id={gid}{em}"], 1
+    if transport in ("proxy-bare-mto", "socket-bare-mto"):
+        # the installing / forwarding gateway itself runs main_thread_only on the interpreter without execnet
+        m = "popen//python=/sim/bare-python3 -S -E//id=m//execmodel=main_thread_only"
+        return [m, (f"popen//via=m//id={gid}{em}" if transport.startswith("proxy") else f"socket//installvia=m//id={gid}{em}")], 1
     if transport == "ssh-config":
         return [f"ssh=-p 2222 user@simhost//ssh_config=/sim/ssh_config//python=/opt/py/bin/python3//id={gid}{em}"], 0
     if transport == "vagrant":
